@@ -427,6 +427,10 @@ def imagePl {β₁ β₂ γ : Type} (ssx : Nat) (g : β₁ → β₂ → Nat →
 def Run.byteLo (pitch obpp : Nat) (r : Run) : Nat := r.row * pitch + r.col * obpp
 def Run.byteHi (pitch obpp : Nat) (r : Run) : Nat := r.row * pitch + (r.col + r.n) * obpp
 
+/-- the same for a bi-planar run (`get_row(y)`, then `out[offset_width * bpp ..][chunk_start * bpp ..]`) -/
+def PlRun.byteLo (pitch obpp : Nat) (r : PlRun) : Nat := r.row * pitch + r.col * obpp
+def PlRun.byteHi (pitch obpp : Nat) (r : PlRun) : Nat := r.row * pitch + (r.col + r.n) * obpp
+
 /-! ### colour formats, decoder selection, channel mapping -/
 
 inductive Channels where
